@@ -492,6 +492,7 @@ func (l *lexer) parseType() *TypeExpr {
 // ---------- contract file structure ----------
 
 type Clause struct {
+	Internal bool // "check": proved at every return with the function's locals in scope, never assumed by callers
 	Label string
 	Expr  Expr
 	Src   string
@@ -570,7 +571,7 @@ type ContractFile struct {
 }
 
 var clauseKeywords = map[string]bool{
-	"func": true, "requires": true, "ensures": true, "assigns": true, "loop": true,
+	"func": true, "requires": true, "ensures": true, "check": true, "assigns": true, "loop": true,
 	"ghost": true, "pred": true, "define": true, "axiom": true, "lemma": true, "inline": true,
 	"invariant": true, "decreases": true, "trusted": true, "pure": true, "note": true, "unroll": true, "ginv": true,
 }
@@ -648,7 +649,7 @@ func ParseContractFile(path, pkg string, raw bool) (*ContractFile, error) {
 			cf.Funcs = append(cf.Funcs, fc)
 			cur = fc
 			curLoop = ""
-		case "requires", "ensures":
+		case "requires", "ensures", "check":
 			if cur == nil {
 				return nil, fmt.Errorf("%s: %s outside func", where, c.kw)
 			}
@@ -657,7 +658,7 @@ func ParseContractFile(path, pkg string, raw bool) (*ContractFile, error) {
 			if err != nil {
 				return nil, err
 			}
-			cl := &Clause{Label: label, Expr: e, Src: text, Where: where}
+			cl := &Clause{Label: label, Expr: e, Src: text, Where: where, Internal: c.kw == "check"}
 			if c.kw == "requires" {
 				cur.Requires = append(cur.Requires, cl)
 			} else {
